@@ -21,9 +21,17 @@ def Float.powi (a : Float) (b : Int) : Float :=
   let r := powiLoop 1.0 a b.natAbs
   if b < 0 then 1.0 / r else r
 
+@[extern "statrs_rawbits"] opaque Float.rawBits : Float → UInt64
+@[extern "statrs_ofrawbits"] opaque Float.ofRawBits : UInt64 → Float
+
 def fNaN : Float := 0.0 / 0.0
-/-- Rust panics in value position evaluate to NaN in the executable model. -/
-instance (priority := high) instInhabitedFloatNaN : Inhabited Float := ⟨fNaN⟩
+/-- A Rust panic in value position evaluates, in the executable model, to a quiet NaN with a
+    recognisable payload; the payload survives IEEE arithmetic and libm calls, and the driver
+    prints `panic` for it.  (Over ℝ the value is irrelevant: theorems are stated under the
+    guards that exclude the panic.) -/
+def panicNaN : Float := Float.ofRawBits 0x7ff8dead00000000
+def Float.isPanicNaN (x : Float) : Bool := x.isNaN && (Float.rawBits x &&& 0x0000ffff00000000) == 0x0000dead00000000
+instance (priority := high) instInhabitedFloatPanic : Inhabited Float := ⟨panicNaN⟩
 def fInf : Float := 1.0 / 0.0
 
 /-- `f64::signum`: 1.0 for +0.0 and positives, -1.0 for -0.0 and negatives, NaN for NaN -/
@@ -82,7 +90,7 @@ instance : RFun Float where
   minVal := Float.ofBits 0xFFEFFFFFFFFFFFFF
   minPositive := Float.ofBits 0x0010000000000000
   epsilon := Float.ofBits 0x3CB0000000000000
-  ofInt := Float.ofInt
+  ofInt := fun x => if x ≤ -(2 ^ 190) ∨ x ≥ 2 ^ 190 then panicNaN else Float.ofInt x
   toU64 := fun x => (x.toUInt64.toNat : Int)
   toI64 := fun x => x.toInt64.toInt
   toI32 := fun x => x.toInt32.toInt
